@@ -13,8 +13,11 @@ CONSTANTS
   Mode = "free"
   R2S <- R2Sdef_q_cyl_free
   ZStep = 1
+  CentralRule = "halfopen"
+  SpanRule = "whole"
 INVARIANT SingleCorrect
 INVARIANT PeriodicCorrect
+INVARIANT SpanSound
 INVARIANT NoAxisNoDroplet
 INVARIANT RadialCorrect
 INVARIANT RadialHalfCell
